@@ -45,6 +45,7 @@ var c06Kinds = []string{"hb", "assoc", "est", "mod", "del", "estc", "assocc"}
 func c06Pick(rng *vh.Rng, k int) []c06Inst {
 	var out []c06Inst
 	used := map[[2]int]int{}
+	taken := map[[3]uint32]bool{} // (node, socket, sequence) already given to an instance
 	base := uint32(0x4200 + rng.Intn(4))
 	for len(out) < k {
 		in := c06Inst{Kind: c06Kinds[rng.Intn(len(c06Kinds))], Node: rng.Intn(2)}
@@ -56,6 +57,15 @@ func c06Pick(rng *vh.Rng, k int) []c06Inst {
 		}
 		key := [2]int{in.Node, in.Sock}
 		in.Seq = base + uint32(used[key]) // same socket: next number; other socket: same number
+		if used[key] > 0 && rng.Chance(1, 3) {
+			// same socket, a sequence number that differs from an earlier one only above bit 15 / in the top octet:
+			// 24-bit sequence numbers are compared in full
+			alt := (base + uint32(rng.Intn(used[key]))) ^ []uint32{0x010000, 0x020000, 0xff0000, 0x800000, 0x7f0000}[rng.Intn(5)]
+			if !taken[[3]uint32{uint32(in.Node), uint32(in.Sock), alt}] {
+				in.Seq = alt
+			}
+		}
+		taken[[3]uint32{uint32(in.Node), uint32(in.Sock), in.Seq}] = true
 		used[key]++
 		out = append(out, in)
 	}
